@@ -15,7 +15,10 @@ OWN_ALARM = True          # the termination cases set their own alarm
 REQUIRED_THEOREMS = ['Usid.C15.budget', 'Usid.C15.monotone', 'Usid.C15.cores_bounds', 'Usid.C15.recommend_bounds',
                      'Usid.C15.recommend_le_request', 'Usid.C15.recommend_total',
                      'Usid.C15.recommend_zero_request_raises', 'Usid.C15.recommend_zero_jobs_raises',
-                     'Usid.C15.zero_budget_errors', 'Usid.C15.terminates_all_done', 'Usid.C15.admits_one_row']
+                     'Usid.C15.zero_budget_errors', 'Usid.C15.terminates_all_done', 'Usid.C15.admits_one_row',
+                     'Usid.C15.generated_set_memory_eq_hand', 'Usid.C15.generated_budget',
+                     'Usid.C15.set_memory_small_multiplier_raises', 'Usid.C15.set_memory_sign_irrelevant',
+                     'Usid.C15.set_memory_zero_workers_raises', 'Usid.C15.set_memory_zero_row_raises']
 RULE = ('[also: budgets that admit 2^32 rows and more] [also: min_free_cores (valid, boundary and invalid values); the batch size must be >= 1 whenever the budget admits a row] simulated machines (psutil/multiprocessing patched in the harness): sizing cases (logical cores, available '
         'bytes, max_mem_mb, dyadic multiplier k/8, cores argument, row bytes) each paired with a larger budget; '
         'recommender grid cases; real compute() runs under a SIGALRM watchdog for zero/one/few-row budgets; '
@@ -65,6 +68,19 @@ def generate(seed, tier):
         cases.append({'kind': 'sizing', 'logical': rng.choice([1, 2, 4]), 'avail': avail, 'mb': None, 'mult8': 8,
                       'cores': 1, 'n': rng.randint(1, 4), 'm': 1, 'dtype': 'f4',
                       'avail2': avail + rng.choice([4, 2 ** 30, 2 ** 34]), 'mb2': None})
+    # multipliers of either sign and of absolute value below 1 (refused), limits of either sign: the generated
+    # `__set_memory` takes the absolute values itself
+    for j in range({'quick': 6, 'thorough': 40, 'search': 16}[tier]):
+        rng = derived_rng(seed, 'C15mult', j)
+        m = rng.randint(1, 4)
+        avail = rng.choice([rng.randint(1, 4096), rng.randint(10 ** 6, 2 ** 36)])
+        mb = rng.choice([None, rng.randint(1, 64), -rng.randint(1, 64), 0])
+        logical = rng.choice([1, 2, 4, 8])
+        cases.append({'kind': 'sizing', 'logical': logical, 'avail': avail, 'mb': mb,
+                      'mult8': rng.choice([-rng.randint(8, 64), -rng.randint(1, 7), rng.randint(0, 7), 8, -8, 0]),
+                      'cores': rng.choice([None, 1, rng.randint(1, logical)]), 'n': rng.randint(1, 4), 'm': m,
+                      'dtype': rng.choice(['f4', 'f8']), 'avail2': avail + rng.choice([0, 8, 10 ** 6]),
+                      'mb2': None if mb is None else -abs(mb) - rng.choice([0, 1])})
     return cases
 
 
@@ -209,7 +225,12 @@ def oracle(inp, obs):
         return fails
     if inp['kind'] == 'sizing':
         rowb = {'f4': 4, 'f8': 8, 'c16': 16}[inp['dtype']] * inp['m']
-        mult = Fraction(inp['mult8'], 8)
+        # the library documents and takes the absolute value of the multiplier; multipliers of absolute value
+        # below 1 lie outside the property's quantifier (mem_multiplier >= 1): only the tie with the generated
+        # model (which refuses them with ValueError) judges those
+        mult = abs(Fraction(inp['mult8'], 8))
+        if mult < 1:
+            return fails
         for tag, avail, mb in (('a', inp['avail'], inp['mb']), ('b', inp['avail2'], inp['mb2'])):
             o = obs[tag]
             if 'err' in o:
@@ -272,7 +293,7 @@ def model_requests(inp):
         out = []
         for avail, mb in ((inp['avail'], inp['mb']), (inp['avail2'], inp['mb2'])):
             out.append({'op': 'gen.sizing', 'logical': inp['logical'], 'cores': inp['cores'], 'avail': avail,
-                        'mb': None if mb is None else abs(mb), 'rowbytes': _rowb(inp), 'num': inp['mult8'], 'den': 8})
+                        'mb': mb, 'rowbytes': _rowb(inp), 'num': inp['mult8'], 'den': 8})
         return out
     # run: the available memory was derived from the worker count, itself a function of (logical, cores):
     # ask the model for every possible worker count and let model_obs pick the consistent one
